@@ -34,52 +34,69 @@ test_name = os.path.basename(demo_rel)[:-3]
 patch = os.path.join(src, "patch.diff")
 touched = sorted(set(re.findall(r"^\+\+\+ b/([a-z_-]+)/", open(patch).read(), flags=re.M)))
 
-sh(["git", "-C", "/repo", "worktree", "remove", "--force", wt])
-rc, out = sh(["git", "-C", "/repo", "worktree", "add", "--detach", wt, "HEAD"])
-meta = {"property": pid, "seed": "%s_%s" % (pid, letter), "demo_location": demo_rel, "touched_crates": touched,
-        "readme": readme[:3000], "repo_head": sh(["git", "-C", "/repo", "rev-parse", "--short", "HEAD"])[1].strip()}
-try:
-    os.makedirs(os.path.dirname(os.path.join(wt, demo_rel)), exist_ok=True)
-    shutil.copy(os.path.join(src, "demo.rs"), os.path.join(wt, demo_rel))
-    cmd = "cargo test -p %s --test %s --offline 2>&1 | tail -15" % (crate, test_name)
-    rc0, out0 = sh(cmd + "; exit ${PIPESTATUS[0]}", cwd=wt, e=env)
-    rc0, out0 = sh(["bash", "-c", "set -o pipefail; " + cmd], cwd=wt)
-    meta["demo_without_patch"] = {"cmd": cmd, "passed": rc0 == 0, "tail": out0[-600:]}
-    rca, outa = sh(["git", "apply", patch], cwd=wt)
-    meta["patch_applies"] = rca == 0
-    rc1, out1 = sh(["bash", "-c", "set -o pipefail; " + cmd], cwd=wt)
-    meta["demo_with_patch"] = {"passed": rc1 == 0, "tail": out1[-600:]}
-    # existing tests of the touched crates (plus kolibrie, which depends on all)
-    crates = sorted(set(touched + [crate]))
-    os.remove(os.path.join(wt, demo_rel))
-    tcmd = "cargo test %s --offline --no-fail-fast --lib --tests 2>&1 | grep -E '^test .*FAILED|^test result|error(\\[|:)' | sort | uniq -c | sort -rn | head -30" % " ".join("-p " + c for c in crates)
-    rc2, out2 = sh(["bash", "-c", tcmd], cwd=wt, timeout=7200)
-    failed = re.findall(r"test (\S+) \.\.\. FAILED", out2)
-    meta["existing_tests_with_patch"] = {"cmd": tcmd, "failed": failed, "tail": out2[-1200:]}
-    tests_ok = all("rsp_ql_dstream_semantics" in f for f in failed) and "error[" not in out2 and "could not compile" not in out2 and "test result" in out2
-finally:
+CHECK_ONLY = "--check-only" in sys.argv
+dst0 = os.path.join(ROOT, "seeded", "%s_%s" % (pid, letter), "meta.json")
+if CHECK_ONLY and os.path.exists(dst0):
+    meta = json.load(open(dst0))
+    tests_ok = meta.get("confirmed", False)
+else:
     sh(["git", "-C", "/repo", "worktree", "remove", "--force", wt])
+    rc, out = sh(["git", "-C", "/repo", "worktree", "add", "--detach", wt, "HEAD"])
+    meta = {"property": pid, "seed": "%s_%s" % (pid, letter), "demo_location": demo_rel, "touched_crates": touched,
+            "readme": readme[:3000], "repo_head": sh(["git", "-C", "/repo", "rev-parse", "--short", "HEAD"])[1].strip()}
+    try:
+        os.makedirs(os.path.dirname(os.path.join(wt, demo_rel)), exist_ok=True)
+        shutil.copy(os.path.join(src, "demo.rs"), os.path.join(wt, demo_rel))
+        cmd = "cargo test -p %s --test %s --offline 2>&1 | tail -15" % (crate, test_name)
+        rc0, out0 = sh(cmd + "; exit ${PIPESTATUS[0]}", cwd=wt, e=env)
+        rc0, out0 = sh(["bash", "-c", "set -o pipefail; " + cmd], cwd=wt)
+        meta["demo_without_patch"] = {"cmd": cmd, "passed": rc0 == 0, "tail": out0[-600:]}
+        rca, outa = sh(["git", "apply", patch], cwd=wt)
+        meta["patch_applies"] = rca == 0
+        rc1, out1 = sh(["bash", "-c", "set -o pipefail; " + cmd], cwd=wt)
+        meta["demo_with_patch"] = {"passed": rc1 == 0, "tail": out1[-600:]}
+        # existing tests of the touched crates (plus kolibrie, which depends on all)
+        crates = sorted(set(touched + [crate]))
+        os.remove(os.path.join(wt, demo_rel))
+        tcmd = "cargo test %s --offline --no-fail-fast --lib --tests 2>&1 | grep -E '^test .*FAILED|^test result|error(\\[|:)' | sort | uniq -c | sort -rn | head -30" % " ".join("-p " + c for c in crates)
+        rc2, out2 = sh(["bash", "-c", tcmd], cwd=wt, timeout=7200)
+        failed = re.findall(r"test (\S+) \.\.\. FAILED", out2)
+        meta["existing_tests_with_patch"] = {"cmd": tcmd, "failed": failed, "tail": out2[-1200:]}
+        tests_ok = all("rsp_ql_dstream_semantics" in f for f in failed) and "error[" not in out2 and "could not compile" not in out2 and "test result" in out2
+    finally:
+        sh(["git", "-C", "/repo", "worktree", "remove", "--force", wt])
+
 
 # run the check against /repo with the patch applied
-st = sh(["git", "-C", "/repo", "status", "--porcelain"])[1].strip()
+NO_CHECK = "--no-check" in sys.argv
+st = "" if NO_CHECK else sh(["git", "-C", "/repo", "status", "--porcelain"])[1].strip()
 if st:
     print("REFUSING: /repo has local changes:", st)
     sys.exit(2)
 t0 = time.time()
 detected, line, replay = False, "", None
 try:
+    if NO_CHECK:
+        raise KeyboardInterrupt
+    ev = os.path.join(ROOT, "evidence", pid + ".json")
+    ev_saved = open(ev).read() if os.path.exists(ev) else None
     rca, outa = sh(["git", "-C", "/repo", "apply", patch])
-    rcc, outc = sh([os.path.join(ROOT, "check"), pid, "--tier", tier], cwd=ROOT, timeout=7200)
+    rcc, outc = sh([os.path.join(ROOT, "check"), pid, "--tier", tier], cwd=ROOT, timeout=7200, e=dict(os.environ))
     vl = [l for l in outc.splitlines() if l.startswith("VIOLATION")]
     detected = rcc == 1 and bool(vl)
     line = vl[0] if vl else outc.splitlines()[-1] if outc.splitlines() else ""
     m = re.search(r"replay=(\S+)", line)
     if m and os.path.exists(m.group(1)):
         replay = json.load(open(m.group(1)))
+except KeyboardInterrupt:
+    pass
 finally:
-    sh(["git", "-C", "/repo", "checkout", "--", "."])
-    sh(["git", "-C", "/repo", "clean", "-fdq", "--", "kolibrie/tests", "datalog/tests", "shared/tests"])
-meta["check"] = {"cmd": "./check %s --tier %s" % (pid, tier), "detected": detected, "line": line, "wall_s": round(time.time() - t0, 1),
+    if not NO_CHECK:
+        if ev_saved is not None:
+            open(ev, "w").write(ev_saved)  # evidence must describe /repo itself, never a patched tree
+        sh(["git", "-C", "/repo", "checkout", "--", "."])
+        sh(["git", "-C", "/repo", "clean", "-fdq", "--", "kolibrie/tests", "datalog/tests", "shared/tests"])
+meta["check"] = None if NO_CHECK else {"concrete_failing_input": detected and "no-failing-input-found" not in line, "cmd": "./check %s --tier %s" % (pid, tier), "detected": detected, "line": line, "wall_s": round(time.time() - t0, 1),
                  "replay": {k: (str(v)[:1500]) for k, v in (replay or {}).items()}}
 meta["confirmed"] = bool(meta["demo_without_patch"]["passed"] and not meta["demo_with_patch"]["passed"] and tests_ok)
 dst = os.path.join(ROOT, "seeded", "%s_%s" % (pid, letter))
